@@ -58,6 +58,9 @@ def apply_edit(engine, ed: dict) -> None:
     elif t == "rule_weight":
         b = engine.rule_blocks[ed["b"] % len(engine.rule_blocks)]
         b.rules[ed["r"] % len(b.rules)].weight = fdec(ed["v"])
+    elif t == "unload_rule":
+        b = engine.rule_blocks[ed["b"] % len(engine.rule_blocks)]
+        b.rules[ed["r"] % len(b.rules)].unload()  # public API: the rule stays in the block but is skipped
     elif t == "resolution":
         d = engine.output_variables[ed["out"] % len(engine.output_variables)].defuzzifier
         if isinstance(d, fl.IntegralDefuzzifier):
@@ -111,6 +114,9 @@ def apply_edit_spec(spec: dict, ed: dict) -> None:
     elif t == "rule_weight":
         b = spec["blocks"][ed["b"] % len(spec["blocks"])]
         b["rules"][ed["r"] % len(b["rules"])]["weight"] = ed["v"]
+    elif t == "unload_rule":
+        b = spec["blocks"][ed["b"] % len(spec["blocks"])]
+        b["rules"][ed["r"] % len(b["rules"])]["unloaded"] = True
     elif t == "resolution":
         d = spec["outputs"][ed["out"] % len(spec["outputs"])]["defuzzifier"]
         if d and "resolution" in d:
@@ -135,7 +141,10 @@ def gen_edit(rng, spec: dict) -> dict:
     """Draw an edit that applies to this spec."""
     for _ in range(20):
         t = rng.choice(["term_attr", "term_attr", "term_attr", "discrete_cell", "linear_coeff", "function_var", "range",
-                        "rule_weight", "resolution", "activation_param", "operator", "out_setting"])
+                        "rule_weight", "resolution", "activation_param", "operator", "out_setting", "unload_rule"])
+        if t == "unload_rule":
+            bi = rng.randrange(len(spec["blocks"]))
+            return {"t": t, "b": bi, "r": rng.randrange(len(spec["blocks"][bi]["rules"]))}
         if t in ("term_attr", "discrete_cell", "linear_coeff", "function_var"):
             kind = rng.choice(["in", "out"])
             vs = spec["inputs"] if kind == "in" else spec["outputs"]
@@ -390,6 +399,15 @@ def set_inputs(engine, rows: list, setter: str = "vars") -> None:
     if setter == "matrix" and len(rows) > 1:
         engine.input_values = arr.copy()  # the engine-level matrix setter
         return
+    if setter == "inplace":
+        # a control loop that reuses its input buffers: refill the value objects the variables already hold
+        cur = [iv.value for iv in engine.input_variables]
+        if all(isinstance(c, np.ndarray) and c.dtype == np.float64 and c.flags.writeable and c.shape == ((len(rows),) if len(rows) > 1 else ())
+               for c in cur) and not any(iv.lock_range for iv in engine.input_variables):
+            for c, col in enumerate(cur):
+                col[...] = arr[:, c] if len(rows) > 1 else arr[0, c]
+            return
+        setter = "np0d" if len(rows) == 1 else "vars"
     for c, iv in enumerate(engine.input_variables):
         if len(rows) > 1:
             iv.value = arr[:, c].copy()
